@@ -1,5 +1,6 @@
 import SeaQ.Lemmas.Scan
 import SeaQ.Lemmas.RenderCtx
+import SeaQ.Lemmas.RenderPlain
 /-!
 # C01 — placeholders and bound values correspond one-to-one, in order
 
@@ -120,6 +121,47 @@ theorem render_safe (d : Backend) (inl : Bool) (q : Query)
     (hc : (rQuery d q).all (contentOK d inl) = true) : safe d inl false 0 (rQuery d q) = true := by
   rw [SafeN.safe_eq_safeN]
   exact SafeN.ctx_sound d inl _ false false .emp none (by simp) rfl hc (SafeN.c_query d q false .emp rfl)
+
+/-- what the *caller* must supply for `render_safe`: nothing is asked of the renderer's own text -/
+def userOK (d : Backend) (inl : Bool) : Piece → Bool
+  | .s _ => true
+  | p => contentOK d inl p
+
+theorem plain_of_okP (d : Backend) (t : String) (h : SeaQ.Plain.okP d (.s t) = true) : t.toList.all (plainChar d) = true := by
+  simp only [SeaQ.Plain.okP, Bool.or_eq_true, Bool.and_eq_true, beq_iff_eq] at h
+  cases h with
+  | inl h => exact SafeN.plain_of_basic d _ h
+  | inr h => obtain ⟨hd, ht⟩ := h; subst hd; subst ht; decide
+
+/-- **the renderer's own text is plain**: every `.s` piece of every rendering consists of characters that are read as
+themselves in the dialect (no quote character, no placeholder mark) — by the induction of `RenderPlain.lean` -/
+theorem renderer_text_plain (d : Backend) (q : Query) (hm : SeaQ.Plain.bad (rQuery d q) = false) :
+    ∀ t, Piece.s t ∈ rQuery d q → t.toList.all (plainChar d) = true := by
+  intro t ht
+  cases SeaQ.Plain.b_query d q with
+  | inl hb => rw [hb] at hm; cases hm
+  | inr hall => exact plain_of_okP d t (List.all_eq_true.mp hall _ ht)
+
+/-- `render_safe` with the condition on the caller's input only: no panic marker, representable inline constants,
+caller-supplied raw text non-empty and free of quote characters and marks, no template -/
+theorem render_safe_user (d : Backend) (inl : Bool) (q : Query)
+    (hu : (rQuery d q).all (userOK d inl) = true) : safe d inl false 0 (rQuery d q) = true := by
+  apply render_safe
+  have hm : SeaQ.Plain.bad (rQuery d q) = false := by
+    cases hb : SeaQ.Plain.bad (rQuery d q) with
+    | false => rfl
+    | true =>
+      simp only [SeaQ.Plain.bad, List.any_eq_true] at hb
+      obtain ⟨p, hp, hbp⟩ := hb
+      have := List.all_eq_true.mp hu p hp
+      cases p with
+      | raw t => simp_all [SeaQ.Plain.badP, userOK, contentOK]
+      | _ => simp [SeaQ.Plain.badP] at hbp
+  rw [List.all_eq_true] at hu ⊢
+  intro p hp
+  cases p with
+  | s t => exact renderer_text_plain d q hm t hp
+  | _ => simpa [userOK] using hu _ hp
 
 /-- **C01 for every statement of the model without caller-supplied raw text** -/
 theorem C01_all_statements (d : Backend) (q : Query) (hc : (rQuery d q).all (contentOK d false) = true) :
